@@ -113,7 +113,7 @@ impl Axecutor {
             if entry.count > 1 {
                 trace.push_str(&format!(
                     "{}{}: {} => {} ({} times)\n",
-                    "  ".repeat(entry.level as usize),
+                    "  ".repeat(entry.level.max(0) as usize),
                     instruction_symbol,
                     instruction,
                     target_symbol,
@@ -122,7 +122,7 @@ impl Axecutor {
             } else {
                 trace.push_str(&format!(
                     "{}{}: {} => {}\n",
-                    "  ".repeat(entry.level as usize),
+                    "  ".repeat(entry.level.max(0) as usize),
                     instruction_symbol,
                     instruction,
                     target_symbol,
